@@ -56,6 +56,8 @@ def case_st(draw):
             "reparent": draw(st.sampled_from([None, None, "copy_recentre", "share_no_mesh"])),
             # exact data only: positions and origin are int32 counts of a small length (x 20000: squares exceed int32)
             "int_pos": exact and draw(st.booleans()),
+            # one variable stored under a second key of its group as well (its .name then differs from the first key)
+            "alias": draw(st.integers(0, 3)) == 0,
             # a few rows whose position has a NaN component: they lie inside no region
             "nan_rows": (not exact) and draw(st.integers(0, 3)) == 0}
 
@@ -133,6 +135,9 @@ def extract(case, r):
     mesh["velocity"] = osyris.Vector(*[osyris.Array(values=np.arange(n_mesh, dtype=np.float64) * (i + 2), unit="km/s")
                                        for i in range(nvec)])
     mesh["level"] = osyris.Array(values=np.arange(n_mesh, dtype=np.int64) % 5)
+    if case.get("alias"):
+        mesh["rho"] = mesh["density"]           # the same object under two keys
+        r.label("variable_under_two_keys")
     if with_mesh:
         groups["mesh"] = mesh
     if case["with_part"]:
